@@ -47,6 +47,7 @@ def bodies():
             ("truediv_pub_zero", "i", "{i} / {Z}"), ("floordiv_pub_zero", "i", "{i} // {Z}"), ("mod_pub_zero", "i", "{i} % {Z}"), ("divmod_pub_zero", "i", "divmod({i}, {Z})[1]"),
             ("floordiv_pub_counter", "i", "{i} // ({k} - {k})"), ("ffloordiv_pub_zero", "f", "{f} // {Z}"), ("fmod_pub_tiny", "f", "{f} % 0.0001"),
             ("fdiv_pub_tiny", "f", "{f} / 0.0001"),
+            ("if_guard_helper", None, "_ig_pos({i})"), ("if_guard_helper2", None, "_ig_lt({i}, {i})"), ("if_guard_python_check", None, "_ig_py({i})"),
             ("comp_inexact_cmp", "b", "({i} / {k}) < {i}"), ("comp_inexact_bits", "i", "LinComb.from_bits(({i} / {k}).to_bits())")]
     return out
 
@@ -73,6 +74,13 @@ def main():
                                       "selected_unique", "enforcement_compared"))
 
 
+# helpers that only act in live code, wrapped once at module level (no guard is active there) and called inside the regions; the
+# last one is a check written in plain Python, which only if_guard keeps out of dead code
+HELPERS = ("_ig_pos = if_guard(lambda v: v.assert_positive(2))\n_ig_lt = if_guard(lambda v, w: v.assert_lt(w))\n"
+           "def _pyraise(v):\n    val = v.value if hasattr(v, 'value') else v.v\n    if val > 2 or val < 0:\n        raise ValueError('value %d out of range' % val)\n"
+           "_ig_py = if_guard(_pyraise)\n")
+
+
 def build(tid, rty, tmpl, mech, depth, bl, res, ins, consts, rnd=None):
     """returns (case, pre_src, unguarded_src, guarded_src).  Conditions c0 (outermost) .. c{depth-1} are the inputs after the
     operands, then alt.  The outermost region uses `mech`; inner levels use a random mechanism each (mixed nesting).  After
@@ -87,6 +95,7 @@ def build(tid, rty, tmpl, mech, depth, bl, res, ins, consts, rnd=None):
     if mech in ("elif", "dead_else"):
         pre += "e0 = PrivValBool(I[%d])\n" % (n + depth + 1)
     pre += "_ = BranchingValues()\n_.r = alt + 0\n"
+    pre += HELPERS
     expr = case.expr
     ung = ("r = %s\n" % expr) if rty is not None else ("%s\n" % expr)
     mechs = [mech] + [(rnd.choice(MECHS) if rnd is not None else mech) for _ in range(depth - 1)]
@@ -117,7 +126,7 @@ def sample_operands(case, tmpl, bl, res, rnd, model, G, want_valid, p=None):
     from vf import opcases
     sl = [s for s in opcases.slots(tmpl) if s in ("i", "b", "f")]
     h = (1 << (bl - 1)) - 1
-    prog = G.Prog(case.pre_src + (("r = " if case.rty is not None else "") + case.expr) + "\n", [], bl, res)
+    prog = G.Prog(case.pre_src + HELPERS + (("r = " if case.rty is not None else "") + case.expr) + "\n", [], bl, res)
     chunks = G.compile_chunks(prog.src)
     for _ in range(60):
         ins = []
@@ -257,7 +266,25 @@ def judge_true(R, U, Gd, rty, tid, det, api_number, res):
             R.violation("true-guard-unsatisfied:" + tid, "constraint %d unsatisfied under a true guard" % bad[0], **det)
 
 
+def operands_unchanged(R, Gd, det, tid, where):
+    """what went into the region comes out of it: the operand objects still report the values they were created from"""
+    ins = det.get("inputs") or []
+    for i, v in enumerate(ins):
+        o = Gd.ns.get("x%d" % i)
+        if o is None or not isinstance(v, int) or isinstance(v, bool):
+            continue
+        val = getattr(o, "value", None)
+        if val is None:
+            val = getattr(getattr(o, "lc", None), "value", None)
+        if isinstance(val, int) and type(o).__name__ in ("LinComb", "LinCombBool"):
+            R.count("operands_compared_after_region")
+            if val != v:
+                R.violation("operand-changed-by-region:" + tid, "operand x%d was created from %d and reports %d after the %s region" % (i, v, val, where), **det)
+                return
+
+
 def judge_false(R, base_valid, Gd, rty, tid, oclass, alt, det, r1cs, api_number, res, case):
+    operands_unchanged(R, Gd, det, tid, "false-guarded")
     if Gd.exc is not None:
         same_unguarded = base_valid.exc is not None and type(base_valid.exc) is type(Gd.exc)
         if same_unguarded:
